@@ -19,7 +19,7 @@ CLAIMED = {
             'DESIGN.md 3.1, 4 C14'),
 }
 
-CLAIMED['C04'] = ('NumpyIndex, Gen_C04',
+CLAIMED['C04'] = ('NumpyIndex, Gen_C04, Session',
     'TLA+ model of NumPy indexing + FCSData metadata expectation; TLC enumerates the whole key grammar at depth 1, all '
     'chains of 2 (exhaustive) and sampled chains of 3; each state replayed as read and as assignment into real FCSData; '
     'the spec itself is validated against plain ndarray on every case',
@@ -75,7 +75,7 @@ CLAIMED['C12'] = ('Stats, Gen_C12',
     'logged observation (float reference computed by the harness).',
     'DESIGN.md 3.2, 4 C12')
 
-CLAIMED['C08'] = ('Gates, Gen_C08',
+CLAIMED['C08'] = ('Gates, Gen_C08, Session',
     'TLA+ predicates of start_end / high_low / axis-aligned ellipse over integer events; environment actions enumerate '
     'events, containers, channel forms and parameters; every scenario executed with full and short output',
     'Exhaustive over the enumerated parameter grids: the mask must equal the specified predicate (or the call must be '
@@ -85,7 +85,7 @@ CLAIMED['C08'] = ('Gates, Gen_C08',
     'the underlying buffer as the meaning of input[mask].',
     'DESIGN.md 3.2, 4 C08')
 
-CLAIMED['C03'] = ('Units, Gen_C03',
+CLAIMED['C03'] = ('Units, Gen_C03, Session',
     'TLA+ decision table of to_rfi argument normalisation + per-channel law selection yielding symbolic laws per column; '
     'environment actions enumerate container x channel form x shapes of the three settings; each scenario executed and the '
     'law on each column identified by evaluating the documented formula',
@@ -96,7 +96,7 @@ CLAIMED['C03'] = ('Units, Gen_C03',
     'column. Quick tier runs all accepted calls and a quarter of the refused ones.',
     'DESIGN.md 3.2, 4 C03')
 
-CLAIMED['C06'] = ('Units (ToMEF), Gen_C06',
+CLAIMED['C06'] = ('Units (ToMEF), Gen_C06, Session',
     'TLA+ pairing table of to_mef (curve i belongs to sc_channels[i]; coverage and count checks); environment actions '
     'enumerate listings, spellings, curve counts and requests; each scenario executed with distinct affine curves',
     'Exhaustive over every ordering/spelling of sc_channels, curve counts n-1,n,n+1 and every request (none, scalar, all '
@@ -104,7 +104,7 @@ CLAIMED['C06'] = ('Units (ToMEF), Gen_C06',
     'refusal vs conversion, the curve on each column (bitwise), untouched columns, ranges, metadata, input not mutated.',
     'Trusted: TLC, value parser. Negative positions are not enumerated (other form).',
     'DESIGN.md 3.2, 4 C06')
-CLAIMED['C07'] = ('RangeLaw, Units, Trace_C07',
+CLAIMED['C07'] = ('RangeLaw, Units, Trace_C07, Session',
     'mechanism model RangeLaw (events and limits through the same increasing map; skew parameter for the last-place '
     'deviation) checked by TLC; recorded conversions of hypothesis-drawn amplifier/curve parameters validated by a trace '
     'spec that requires range term = unit term and the logged bitwise-limit and mask-equality observations',
@@ -126,7 +126,7 @@ CLAIMED['C19'] = ('HistBins, Gen_C19',
     'Trusted: TLC, value parser; the logicle display transform itself (C18, not claimed); coordinate tolerance 1e-11 of the span.',
     'DESIGN.md 3.3, 4 C19')
 
-CLAIMED['C13'] = ('Heap',
+CLAIMED['C13'] = ('Heap, Session',
     'TLA+ object store with Python reference semantics (heap cells for range lists / dictionaries, buffers, accessors that '
     'hand out references); TLC checks NoSharedMeta, BufSharing, Independent, ReadOnlyPreserves on all histories; histories '
     'replayed on real objects and the real sharing graph compared; the ReadOnly/Derive actions are instantiated by a '
@@ -137,7 +137,7 @@ CLAIMED['C13'] = ('Heap',
     'Trusted: TLC, value parser, id()/np.shares_memory observations, fingerprints. Recipes are representative argument '
     'shapes; a callable without a recipe is reported in evidence (none at present). Recipes that raise are listed, not judged.',
     'DESIGN.md 3.2, 4 C13')
-CLAIMED['C20'] = ('Heap',
+CLAIMED['C20'] = ('Heap, Session',
     'same store model; DupBornEqual + NoSharedMeta + BufSharing + Independent checked by TLC; every history replayed on '
     'integer and float files with all optional keywords, every duplicate compared attribute by attribute at birth, all '
     'pickle protocols; file-level equality cases',
@@ -194,7 +194,7 @@ CLAIMED['C11'] = ('ExcelUI, MC_ExcelUI',
     'Trusted: TLC, value parser, message patterns that classify row errors; either of two documented messages accepted '
     'where both checks legitimately apply.',
     'DESIGN.md 3.4, 4 C11')
-CLAIMED['C15'] = ('Workbook, ExcelUI',
+CLAIMED['C15'] = ('Workbook, ExcelUI, RunEnv',
     'TLA+ round-trip model of write_workbook/read_table (rows without identifier dropped, duplicates among identified rows '
     'refused) enumerated exhaustively by TLC and executed; output-workbook schema (sheet order, appended columns) listed '
     'in the spec and checked on generated workbooks and the shipped example run through excel_ui.run',
@@ -214,6 +214,12 @@ NOT_APPLICABLE = {
            'See DESIGN.md section 6.',
 }
 
+SESSION_TEXT = (' In addition spec/Session.tla (whole analysis sessions: column and event selections, RFI, MEF through the '
+                'function made by a real calibration, gates, copies) is model-checked; every history of <= 2 steps and simulated '
+                'longer ones are replayed and the real sample is projected and compared with the specification state after '
+                'every step; this check reports the mismatches attributed to its property.')
+RUNENV_TEXT = (' spec/RunEnv.tla models the file system around run() (current directory, look-alike plot folders, repeated '
+               'runs); every history ending in a run is replayed on a real workbook.')
 PENDING_REASON = 'check not built yet in this round (planned, see DESIGN.md section 9); not claimed until its driver exists'
 
 
@@ -225,6 +231,10 @@ def main():
         pid = p['id']
         if pid in CLAIMED and os.path.exists(os.path.join(V, 'harness', 'conf_%s.py' % pid)):
             mods, tech, text, note, ref = CLAIMED[pid]
+            if 'Session' in mods:
+                text += SESSION_TEXT
+            if 'RunEnv' in mods:
+                text += RUNENV_TEXT
             checks.append({
                 'property_id': pid,
                 'quick_cmd': './check %s --tier quick' % pid,
